@@ -115,6 +115,11 @@ def _check_file(path):
         except (ValueError, ZeroDivisionError):
             bad.append(('c16/builtin-formatter/unparsable-text', 'SCPI_dtostre(%r, prec %d) = [%s]' % (v, prec, text)))
             continue
+        # the promised number of significant digits is also an upper bound: more digits than requested is garbage
+        mant = text.lower().split('e')[0].lstrip('+- ').replace('.', '').lstrip('0')
+        if len(mant) > prec:
+            bad.append(('c16/builtin-formatter/more-digits-than-requested', 'SCPI_dtostre(%r, prec %d) = [%s]: %d significant digits' % (v, prec, text, len(mant))))
+            continue
         fv = Fraction(v)
         e = _pow10_floor(abs(fv))
         unit = Fraction(10) ** (e - prec + 1)
